@@ -1,4 +1,5 @@
-//! C03: Tiny v2 `read` / `write`: round trip, canonical (insertion-order independent) output, fixed point.
+//! C03: Tiny v2 `read` / `write`: round trip, canonical (insertion-order independent) output, fixed point,
+//! one entry per recognised line, well-formed results, duplicate sibling keys are errors.
 use indexmap::IndexMap;
 use java_string::JavaStr;
 use duke::tree::class::ObjClassName;
@@ -110,7 +111,8 @@ fn spoil(g: &mut GMappings, r: &mut Rng, out: &mut Out) {
 			out.stats.hit("spoil:name");
 		}
 		4 => {
-			for c in &mut g.classes { for f in &mut c.fields { f.desc = (*r.pick(&["", "I\tJ", "L\n;", "x\r", "not a desc", "\u{1f600}"])).to_owned(); } }
+			// one field per class only: two fields with one name would get one key, which an IndexMap cannot hold
+			for c in &mut g.classes { if let Some(f) = c.fields.first_mut() { f.desc = (*r.pick(&["", "I\tJ", "L\n;", "x\r", "not a desc", "\u{1f600}"])).to_owned(); } }
 			out.stats.hit("spoil:desc");
 		}
 		_ => {
@@ -227,6 +229,19 @@ fn gen(r: &mut Rng, tier: Tier, out: &mut Out) {
 		let text = join(&lines, r, out);
 		let nn = if r.chance(1, 15) { r.range(2, 4) } else { n };
 		out.op("tiny-read", &[Sexp::nat(nn), Sexp::str(&text)]);
+		match i % 2 {
+			0 => out.op("oracle-read-counts", &[Sexp::nat(nn), Sexp::str(&text)]),
+			_ => out.op("oracle-read-wf", &[Sexp::nat(nn), Sexp::str(&text)]),
+		}
+		// a name that is not UTF-8 (lone surrogate): `write` panics
+		if r.chance(1, 12) {
+			if let Some(ms) = with_surrogate(&m, r) {
+				out.stats.hit("has:surrogate");
+				out.op(*r.pick(&["tiny-write", "tiny-rt", "oracle-rt", "oracle-fixed-point"]), &[ms]);
+			}
+		}
+		// two sibling lines with one key
+		if r.chance(1, 2) { dup_case(&lines, n, r, out); }
 	}
 	// stream 2: malformed / edge texts
 	for _ in 0..rounds * 2 {
@@ -241,6 +256,9 @@ fn gen(r: &mut Rng, tier: Tier, out: &mut Out) {
 		for _ in 0..*r.pick(&[1, 1, 1, 2, 3]) { mutate_text(&mut lines, r, out); }
 		let text = join(&lines, r, out);
 		out.op("tiny-read", &[Sexp::nat(n), Sexp::str(&text)]);
+		if r.chance(1, 2) { out.op("oracle-read-counts", &[Sexp::nat(n), Sexp::str(&text)]); }
+		if r.chance(1, 4) { out.op("oracle-read-wf", &[Sexp::nat(n), Sexp::str(&text)]); }
+		if r.chance(1, 6) { dup_case(&lines, n, r, out); }
 	}
 	// stream 3: fixed edge texts
 	for t in ["", "\n", "tiny\t2\t0\ta\tb", "tiny\t2\t0\ta\tb\n", "tiny\t2\t0\ta\tb\r\n", "tiny\t2\t0\ta\tb\n\n", "\ttiny\t2\t0\ta\tb\nc\tA\tB\n",
@@ -255,8 +273,32 @@ fn gen(r: &mut Rng, tier: Tier, out: &mut Out) {
 		"tiny\t2\t0\ta\tb\nc\tp/A$B$C\t$\n\tf\tLp/A$B;\t$\t$$\n"] {
 		for n in 2..=3 {
 			out.op("tiny-read", &[Sexp::nat(n), Sexp::str(t)]);
+			out.op("oracle-read-counts", &[Sexp::nat(n), Sexp::str(t)]);
+			out.op("oracle-read-wf", &[Sexp::nat(n), Sexp::str(t)]);
 		}
 		out.stats.hit("edge-text");
+	}
+	// stream 3b: fixed duplicate-key texts (positions m i j in the body) and near misses
+	for (t, m, i, j) in [
+		("tiny\t2\t0\ta\tb\nc\tA\tB\nc\tA\tC\n", 0, 0, 1),
+		("tiny\t2\t0\ta\tb\nc\tA\tB\nc\tB\tC\n", 0, 0, 1),
+		("tiny\t2\t0\ta\tb\nc\tA\tB\n\tf\tI\tx\ty\nc\tZ\t\nc\tA\t\n", 0, 0, 3),
+		("tiny\t2\t0\ta\tb\nc\tA\tB\n\tf\tI\tx\ty\n\t\tc\tdoc\n\tm\t()V\tx\ty\n\tf\tI\tx\tz\n", 0, 1, 4),
+		("tiny\t2\t0\ta\tb\nc\tA\tB\n\tf\tI\tx\ty\nc\tC\tD\n\tf\tI\tx\ty\n", 0, 1, 3),
+		("tiny\t2\t0\ta\tb\nc\tA\tB\n\tf\tI\tx\ty\n\tf\tJ\tx\ty\n", 0, 1, 2),
+		("tiny\t2\t0\ta\tb\nc\tA\tB\n\tm\t()V\tx\ty\n\tm\t()V\tx\t\n", 0, 1, 2),
+		("tiny\t2\t0\ta\tb\nc\tA\tB\n\tm\t()V\tx\ty\n\tf\t()V\tx\t\n", 0, 1, 2),
+		("tiny\t2\t0\ta\tb\nc\tA\tB\n\tm\t()V\tx\ty\n\t\tp\t1\t\t\n\t\t\tc\tdoc\n\t\tp\t+1\ta\tb\n", 1, 2, 4),
+		("tiny\t2\t0\ta\tb\nc\tA\tB\n\tm\t()V\tx\ty\n\t\tp\t1\t\t\n\t\tp\t01\ta\tb\n", 1, 2, 3),
+		("tiny\t2\t0\ta\tb\nc\tA\tB\n\tm\t()V\tx\ty\n\t\tp\t1\t\t\n\tm\t(I)V\tx\ty\n\t\tp\t1\ta\tb\n", 1, 2, 4),
+		("tiny\t2\t0\ta\tb\nc\tA\tB\n\tf\tI\tx\ty\n\t\tp\t1\t\t\n\t\tp\t1\ta\tb\n", 1, 2, 3),
+		("tiny\t2\t0\ta\tb\nc\tA\tB\n\tm\t()V\tx\ty\n\t\tp\tx\t\t\n\t\tp\ty\ta\tb\n", 1, 2, 3),
+		("tiny\t2\t0\ta\tb\nc\nc\n", 0, 0, 1),
+		("tiny\t2\t0\ta\tb\nc\tA\tB\n", 0, 0, 0),
+		("tiny\t2\t0\ta\tb\nc\tA\tB\n", 0, 0, 7),
+	] {
+		for n in 2..=3 { out.op("oracle-dup", &[Sexp::nat(n), Sexp::str(t), Sexp::nat(m), Sexp::nat(i), Sexp::nat(j)]); }
+		out.stats.hit("edge-dup");
 	}
 	// stream 4: every insertion order of a small set (3 classes x 3 fields x 3 methods x 3 parameters: 6 orders per level)
 	let base = small_set();
@@ -277,6 +319,66 @@ fn gen(r: &mut Rng, tier: Tier, out: &mut Out) {
 		out.op("oracle-perm", &[bs.clone(), g.to_sexp()]);
 		out.stats.hit("exhaustive-order");
 	} } } }
+}
+
+/// the set with U+D800 appended to one name of its first class (not a key unless `key` is drawn)
+fn with_surrogate(m: &Sexp, r: &mut Rng) -> Option<Sexp> {
+	let mut top = m.as_list().ok()?.to_vec();
+	let mut classes = top[2].as_list().ok()?.to_vec();
+	let mut c = classes.first()?.as_list().ok()?.to_vec();
+	let mut names = c[1].as_list().ok()?.to_vec();
+	let k = r.below(names.len());
+	let cell = names[k].as_list().ok()?.to_vec();
+	let atom = cell.first()?.as_atom().ok()?.to_owned();
+	let bad = Sexp::Atom(format!("{atom}.d800"));
+	names[k] = Sexp::list(vec![bad.clone()]);
+	if k == 0 { c[0] = bad; }
+	c[1] = Sexp::list(names);
+	classes[0] = Sexp::list(c);
+	top[2] = Sexp::list(classes);
+	Some(Sexp::list(top))
+}
+
+fn indent_of(l: &str) -> usize { l.chars().take_while(|c| *c == '\t').count() }
+
+/// copies one entry line (with other target names) to a later place and asks for the duplicate-key theorem there;
+/// some placements are deliberately outside the domain (another class / method in between, no copy at all)
+fn dup_case(lines: &[String], n: usize, r: &mut Rng, out: &mut Out) {
+	if lines.len() < 2 { return; }
+	let body: Vec<String> = lines[1..].to_vec();
+	let entry: Vec<usize> = (0..body.len()).filter(|&k| {
+		let t = body[k].trim_start_matches('\t');
+		(indent_of(&body[k]) == 0 && t.starts_with("c\t")) || (indent_of(&body[k]) == 1 && (t.starts_with("f\t") || t.starts_with("m\t")))
+			|| (indent_of(&body[k]) == 2 && t.starts_with("p\t"))
+	}).collect();
+	if entry.is_empty() { return; }
+	let i = *r.pick(&entry);
+	let ind = indent_of(&body[i]);
+	// the copy: same key cells, the remaining name cells emptied or kept
+	let mut cells: Vec<String> = body[i].split('\t').map(|x| x.to_owned()).collect();
+	let keep = ind + if ind == 0 || ind == 2 { 2 } else { 3 };
+	if r.chance(1, 2) { for c in cells.iter_mut().skip(keep) { c.clear(); } }
+	if ind == 2 && r.chance(1, 3) { let v = cells[ind + 1].clone(); cells[ind + 1] = format!("+{v}"); }
+	let copy = cells.join("\t");
+	// where: end of the subtree of i, end of the enclosing level, or anywhere later
+	let end_sub = (i + 1..body.len()).find(|&k| indent_of(&body[k]) <= ind).unwrap_or(body.len());
+	let end_lvl = if ind == 0 { body.len() } else { (i + 1..body.len()).find(|&k| indent_of(&body[k]) < ind).unwrap_or(body.len()) };
+	let (pos, how) = match r.below(8) {
+		0..=2 => (end_sub, "after-subtree"),
+		3..=5 => (end_lvl, "end-of-level"),
+		6 => (r.range(i + 1, body.len()), "anywhere-later"),
+		_ => (body.len(), "end-of-text"),
+	};
+	let mut nb = body.clone();
+	let no_copy = r.chance(1, 12);
+	if !no_copy { nb.insert(pos, copy); }
+	let m = (0..i).rev().find(|&k| indent_of(&nb[k]) == 1 && nb[k].trim_start_matches('\t').starts_with("m\t")).unwrap_or(0);
+	let mut text = lines[0].clone();
+	text.push('\n');
+	for l in &nb { text.push_str(l); text.push('\n'); }
+	let j = if r.chance(1, 15) { r.below(nb.len() + 2) } else { pos };
+	out.stats.hit(&format!("dup:{}:{}", ["class", "member", "param"][ind.min(2)], if no_copy { "no-copy" } else { how }));
+	out.op("oracle-dup", &[Sexp::nat(n), Sexp::str(&text), Sexp::nat(m), Sexp::nat(i), Sexp::nat(j)]);
 }
 
 fn small_set() -> GMappings {
@@ -304,8 +406,9 @@ fn names_ok<const N: usize, T: AsRef<JavaStr>>(names: &Names<N, T>, valid: fn(&J
 	arr.iter().all(|o| match o { None => true, Some(t) => { let s = t.as_ref(); !s.is_empty() && cell_ok(s) && valid(s) } })
 }
 
-fn doc_ok(d: &Option<JavadocMapping>) -> bool {
-	match d { None => true, Some(JavadocMapping(s)) => !s.contains('\t') && !s.ends_with('\r') && !s.contains("\\n") }
+/// `bsn`: also refuse the two characters backslash, `n` (domain of the round trip); without: domain of the fixed point
+fn doc_ok(d: &Option<JavadocMapping>, bsn: bool) -> bool {
+	match d { None => true, Some(JavadocMapping(s)) => !s.contains('\t') && !s.ends_with('\r') && !(bsn && s.contains("\\n")) }
 }
 
 fn first<const N: usize, T>(names: &Names<N, T>) -> Option<&T> { let arr: &[Option<T>; N] = names.into(); arr.first().and_then(|x| x.as_ref()) }
@@ -318,14 +421,14 @@ fn wf<const N: usize>(m: &M<N>) -> bool {
 			&& me.parameters.iter().all(|(k, p)| k.index == p.info.index)))
 }
 
-/// the proved domain of the round trip (mirror of `Tiny.writable`)
-fn writable<const N: usize>(m: &M<N>) -> bool {
+/// the proved domains: of the round trip (`bsn`, mirror of `Tiny.writable`) and of the fixed point (mirror of `Tiny.writableE`)
+fn writable<const N: usize>(m: &M<N>, bsn: bool) -> bool {
 	let ns: &[String; N] = (&m.info.namespaces).into();
 	N >= 2 && ns.iter().all(|s| !s.is_empty() && str_cell_ok(s)) && m.javadoc.is_none() && wf(m)
-		&& m.classes.values().all(|c| names_ok(&c.info.names, ObjClassName::is_valid) && doc_ok(&c.javadoc)
-			&& c.fields.values().all(|f| cell_ok(f.info.desc.as_inner()) && names_ok(&f.info.names, FieldName::is_valid) && doc_ok(&f.javadoc))
-			&& c.methods.values().all(|me| cell_ok(me.info.desc.as_inner()) && names_ok(&me.info.names, MethodName::is_valid) && doc_ok(&me.javadoc)
-				&& me.parameters.values().all(|p| names_ok(&p.info.names, ParameterName::is_valid) && doc_ok(&p.javadoc))))
+		&& m.classes.values().all(|c| names_ok(&c.info.names, ObjClassName::is_valid) && doc_ok(&c.javadoc, bsn)
+			&& c.fields.values().all(|f| cell_ok(f.info.desc.as_inner()) && names_ok(&f.info.names, FieldName::is_valid) && doc_ok(&f.javadoc, bsn))
+			&& c.methods.values().all(|me| cell_ok(me.info.desc.as_inner()) && names_ok(&me.info.names, MethodName::is_valid) && doc_ok(&me.javadoc, bsn)
+				&& me.parameters.values().all(|p| names_ok(&p.info.names, ParameterName::is_valid) && doc_ok(&p.javadoc, bsn))))
 }
 
 fn sorted_by<K: std::hash::Hash + Eq, V>(map: IndexMap<K, V>, cmp: impl Fn(&(K, V), &(K, V)) -> std::cmp::Ordering) -> IndexMap<K, V> {
@@ -362,9 +465,91 @@ fn by_key<const N: usize>(m: &M<N>) -> M<N> {
 	m
 }
 
-fn write_text<const N: usize>(m: &M<N>) -> Option<String> {
-	let v = quill::tiny_v2::write_vec(m).ok()?;
-	String::from_utf8(v).ok()
+enum Written { Text(String), Panic, Err }
+
+/// `write_vec` under `catch_unwind` (a name that is not UTF-8 makes `std::io::Write::write_fmt` panic)
+fn write_text<const N: usize>(m: &M<N>) -> Written {
+	match std::panic::catch_unwind(std::panic::AssertUnwindSafe(|| quill::tiny_v2::write_vec(m))) {
+		Err(_) => Written::Panic,
+		Ok(Err(_)) => Written::Err,
+		Ok(Ok(v)) => match String::from_utf8(v) { Ok(t) => Written::Text(t), Err(_) => Written::Err },
+	}
+}
+fn written_opt<const N: usize>(m: &M<N>) -> Option<String> { match write_text(m) { Written::Text(t) => Some(t), _ => None } }
+
+// ---- the text seen as lines (own re-implementation of `BufRead::lines` + `TinyLine::new`, used by the oracles only)
+
+struct TL { indent: usize, first: String, fields: Vec<String> }
+
+fn body_lines(text: &str) -> Vec<TL> {
+	use std::io::BufRead;
+	let mut v = Vec::new();
+	for l in text.as_bytes().lines() {
+		let Ok(l) = l else { break };
+		let indent = l.chars().take_while(|c| *c == '\t').count();
+		let mut it = l[indent..].split('\t').map(|x| x.to_owned());
+		let first = it.next().unwrap_or_default();
+		v.push(TL { indent, first, fields: it.collect() });
+	}
+	if !v.is_empty() { v.remove(0); }
+	v
+}
+
+/// classes, fields, methods, parameters, comments the reader must produce for the body (mirror of `Tiny.lineKinds`)
+fn expected_counts(body: &[TL]) -> [usize; 5] {
+	let mut n = [0usize; 5];
+	let mut method = false;
+	for l in body {
+		let f = l.first.as_str();
+		let k = match l.indent {
+			0 => if f == "c" { Some(0) } else { None },
+			1 => match f { "f" => Some(1), "m" => Some(2), "c" => Some(4), _ => None },
+			2 => if method { match f { "p" => Some(3), "c" => Some(4), _ => None } } else if f == "c" { Some(4) } else { None },
+			_ => if f == "c" { Some(4) } else { None },
+		};
+		if let Some(k) = k { n[k] += 1; }
+		if l.indent == 1 { if f == "f" { method = false; } else if f == "m" { method = true; } }
+	}
+	n
+}
+
+fn actual_counts<const N: usize>(m: &M<N>) -> [usize; 5] {
+	let d = |j: &Option<JavadocMapping>| usize::from(j.is_some());
+	let mut n = [0usize; 5];
+	n[0] = m.classes.len();
+	for c in m.classes.values() {
+		n[1] += c.fields.len();
+		n[2] += c.methods.len();
+		n[4] += d(&c.javadoc);
+		for f in c.fields.values() { n[4] += d(&f.javadoc); }
+		for me in c.methods.values() {
+			n[3] += me.parameters.len();
+			n[4] += d(&me.javadoc);
+			for p in me.parameters.values() { n[4] += d(&p.javadoc); }
+		}
+	}
+	n
+}
+
+/// unique keys need no check in an `IndexMap`; `wf` is the rest of `Tiny.wf`
+fn is_line(l: &TL, indent: usize, first: &str) -> bool { l.indent == indent && l.first == first }
+fn between(b: &[TL], i: usize, j: usize) -> &[TL] {
+	let lo = (i + 1).min(b.len());
+	let hi = lo.saturating_add(j.saturating_sub(i + 1)).min(b.len());
+	&b[lo..hi]
+}
+
+/// mirror of `Tiny.dupAt`
+fn dup_at(b: &[TL], m: usize, i: usize, j: usize) -> bool {
+	let (Some(x), Some(y)) = (b.get(i), b.get(j)) else { return false };
+	if i >= j { return false; }
+	let two = |l: &TL| l.fields.iter().take(2).cloned().collect::<Vec<_>>();
+	let class = is_line(x, 0, "c") && is_line(y, 0, "c") && x.fields.first() == y.fields.first();
+	let member = |f: &str| is_line(x, 1, f) && is_line(y, 1, f) && two(x) == two(y) && between(b, i, j).iter().all(|l| l.indent >= 1);
+	let idx = |l: &TL| l.fields.first().and_then(|s| s.parse::<usize>().ok());
+	let param = b.get(m).is_some_and(|lm| m < i && is_line(lm, 1, "m")) && is_line(x, 2, "p") && is_line(y, 2, "p") && idx(x) == idx(y)
+		&& between(b, m, i).iter().all(|l| l.indent >= 2) && between(b, i, j).iter().all(|l| l.indent >= 2);
+	class || member("f") || member("m") || param
 }
 
 fn exec(op: &str, args: &[Sexp]) -> Ans {
@@ -377,23 +562,48 @@ fn exec(op: &str, args: &[Sexp]) -> Ans {
 				match quill::tiny_v2::read::<N, NsMarker>(t.as_bytes()) { Ok(m) => Ans::Ok(to_sexp(&m)), Err(_) => Ans::err() }
 			}, Ans::BadOp("n".into()))
 		}
+		("oracle-read-wf" | "oracle-read-counts", [n, t]) => {
+			let n = tr!(n.as_nat());
+			let t = tr!(t.as_string());
+			with_n!(n, N, {
+				let Ok(m) = quill::tiny_v2::read::<N, NsMarker>(t.as_bytes()) else { return Ans::out_of_domain() };
+				if op == "oracle-read-wf" {
+					if wf(&m) { Ans::pass() } else { Ans::fail("not_wf") }
+				} else {
+					let (e, a) = (expected_counts(&body_lines(&t)), actual_counts(&m));
+					match (0..5).find(|&k| e[k] != a[k]) {
+						None => Ans::pass(),
+						Some(k) => Ans::fail(["classes", "fields", "methods", "params", "docs"][k]),
+					}
+				}
+			}, Ans::BadOp("n".into()))
+		}
+		("oracle-dup", [n, t, m, i, j]) => {
+			let n = tr!(n.as_nat());
+			let t = tr!(t.as_string());
+			let (m, i, j) = (tr!(m.as_nat()), tr!(i.as_nat()), tr!(j.as_nat()));
+			if !dup_at(&body_lines(&t), m, i, j) { return Ans::out_of_domain(); }
+			with_n!(n, N, {
+				match quill::tiny_v2::read::<N, NsMarker>(t.as_bytes()) { Err(_) => Ans::pass(), Ok(_) => Ans::fail("accepted") }
+			}, Ans::BadOp("n".into()))
+		}
 		("tiny-write" | "tiny-rt" | "oracle-rt" | "oracle-fixed-point", [m]) => {
 			let n = tr!(mapcodec::ns_count(m));
 			with_n!(n, N, {
 				let m: M<N> = tr!(from_sexp(m));
 				match op {
-					"tiny-write" => match write_text(&m) { Some(t) => Ans::Ok(Sexp::str(&t)), None => Ans::err() },
+					"tiny-write" => match write_text(&m) { Written::Text(t) => Ans::Ok(Sexp::str(&t)), Written::Panic => Ans::ok_tag("panic"), Written::Err => Ans::err() },
 					"tiny-rt" => {
-						let Some(t) = write_text(&m) else { return Ans::err() };
+						let t = match write_text(&m) { Written::Text(t) => t, Written::Panic => return Ans::ok_tag("panic"), Written::Err => return Ans::err() };
 						match quill::tiny_v2::read::<N, NsMarker>(t.as_bytes()) { Ok(r) => Ans::Ok(to_sexp(&r)), Err(_) => Ans::err() }
 					}
 					_ => {
-						if !writable(&m) { return Ans::out_of_domain(); }
-						let Some(t) = write_text(&m) else { return Ans::fail("write_err") };
+						if !writable(&m, op == "oracle-rt") { return Ans::out_of_domain(); }
+						let t = match write_text(&m) { Written::Text(t) => t, Written::Panic => return Ans::fail("write_panic"), Written::Err => return Ans::fail("write_err") };
 						let Ok(r) = quill::tiny_v2::read::<N, NsMarker>(t.as_bytes()) else { return Ans::fail("read_err") };
 						if op == "oracle-rt" {
 							if to_sexp(&r) == to_sexp(&canon(&m)) { Ans::pass() } else { Ans::fail("differs") }
-						} else if write_text(&r).as_deref() == Some(&t) { Ans::pass() } else { Ans::fail("differs") }
+						} else if written_opt(&r).as_deref() == Some(&t) { Ans::pass() } else { Ans::fail("differs") }
 					}
 				}
 			}, Ans::BadOp("n".into()))
@@ -404,7 +614,7 @@ fn exec(op: &str, args: &[Sexp]) -> Ans {
 				let a: M<N> = tr!(from_sexp(a));
 				let b: M<N> = tr!(from_sexp(b));
 				if !(wf(&a) && wf(&b) && to_sexp(&by_key(&a)) == to_sexp(&by_key(&b))) { return Ans::out_of_domain(); }
-				if write_text(&a) == write_text(&b) { Ans::pass() } else { Ans::fail("differs") }
+				if written_opt(&a) == written_opt(&b) { Ans::pass() } else { Ans::fail("differs") }
 			}, Ans::BadOp("n".into()))
 		}
 		_ => Ans::BadOp("unknown op".into()),
